@@ -24,7 +24,9 @@ import (
 func init() { register("C10", runC10) }
 
 type lockEntry struct {
-	kind        string // stake | fusion | htlc
+	kind        string   // stake | fusion | htlc | pillar | sentinel
+	qsr         *big.Int // sentinel: the QSR part of the collateral
+	regTime     int64    // pillar, sentinel: registration time (the revoke windows repeat from it)
 	owner       types.Address
 	beneficiary types.Address // htlc: hash-locked party
 	amount      *big.Int
@@ -39,8 +41,15 @@ type lockEntry struct {
 
 type lockModel struct {
 	entries map[types.Hash]*lockEntry
+	// pillar collateral by pillar name, sentinel collateral by owner (kind "pillar" / "sentinel")
+	pillars   map[string]*lockEntry
+	sentinels map[types.Address]*lockEntry
+	// QSR deposited and not yet withdrawn or consumed, per contract and depositor (an upper bound
+	// of what a withdrawal may pay: registrations consume deposits)
+	deposits map[types.Address]map[types.Address]*big.Int
 	// explicit proxy-unlock choice per hash-locked address (absent = allowed)
-	proxy map[types.Address]bool
+	proxy         map[types.Address]bool
+	everDeposited map[types.Address]bool
 }
 
 func sub(a, b *big.Int) *big.Int { return new(big.Int).Sub(a, b) }
@@ -304,10 +313,106 @@ func (m *lockModel) observe(r *simrt.Run, ms store.Momentum, send, rcv *nom.Acco
 			r.Fail("released-early", "htlc", "htlc %v reclaimed at %d, before its expiry %d", id, now, e.unlockTime)
 		}
 		pay(e, e.owner, "reclaim")
+	case "pillar.Register", "pillar.RegisterLegacy":
+		p := new(definition.RegisterParam)
+		if key == "pillar.RegisterLegacy" {
+			lp := new(definition.LegacyRegisterParam)
+			if definition.ABIPillars.UnpackMethod(lp, definition.LegacyRegisterMethodName, send.Data) != nil {
+				return
+			}
+			p = &lp.RegisterParam
+		} else if definition.ABIPillars.UnpackMethod(p, definition.RegisterMethodName, send.Data) != nil {
+			return
+		}
+		m.pillars[p.Name] = &lockEntry{kind: "pillar", owner: send.Address, amount: new(big.Int).Set(send.Amount), zts: send.TokenStandard, regTime: now}
+		delete(m.deposits[types.PillarContract], send.Address) // the deposit is consumed (bound stays an upper bound)
+	case "pillar.Revoke":
+		name := new(string)
+		if definition.ABIPillars.UnpackMethod(name, definition.RevokeMethodName, send.Data) != nil {
+			return
+		}
+		e := m.pillars[*name]
+		if e == nil {
+			if len(pays) > 0 {
+				r.Fail("payout-unexplained", "pillar", "Revoke of unknown pillar %q pays %v", *name, payStr(pays))
+			}
+			return
+		}
+		if e.paid {
+			r.Fail("paid-twice", "pillar", "pillar %q, whose collateral was already released, is revoked again successfully and pays %v", *name, payStr(pays))
+		}
+		if send.Address != e.owner {
+			r.Fail("released-to-wrong-party", "pillar", "pillar %q staked by %v revoked by %v", *name, e.owner, send.Address)
+		}
+		if at := (now - e.regTime) % (constants.PillarEpochLockTime + constants.PillarEpochRevokeTime); at < constants.PillarEpochLockTime {
+			r.Fail("released-early", "pillar", "pillar %q revoked %d s into its cycle; the revoke window opens after %d s", *name, at, constants.PillarEpochLockTime)
+		}
+		pay(e, e.owner, "revoke")
+	case "sentinel.Register":
+		m.sentinels[send.Address] = &lockEntry{kind: "sentinel", owner: send.Address, amount: new(big.Int).Set(send.Amount), zts: send.TokenStandard,
+			qsr: new(big.Int).Set(constants.SentinelQsrDepositAmount), regTime: now}
+		delete(m.deposits[types.SentinelContract], send.Address)
+	case "sentinel.Revoke":
+		e := m.sentinels[send.Address]
+		if e == nil {
+			if len(pays) > 0 {
+				r.Fail("payout-unexplained", "sentinel", "Revoke by %v, who holds no modelled sentinel, pays %v", send.Address, payStr(pays))
+			}
+			return
+		}
+		if e.paid {
+			r.Fail("paid-twice", "sentinel", "the sentinel of %v is revoked again successfully and pays %v", send.Address, payStr(pays))
+		}
+		if at := (now - e.regTime) % (constants.SentinelLockTimeWindow + constants.SentinelRevokeTimeWindow); at < constants.SentinelLockTimeWindow {
+			r.Fail("released-early", "sentinel", "sentinel of %v revoked %d s into its cycle; the revoke window opens after %d s", send.Address, at, constants.SentinelLockTimeWindow)
+		}
+		okPay := len(pays) == 2
+		if okPay {
+			z, q := pays[0], pays[1]
+			if z.TokenStandard != types.ZnnTokenStandard {
+				z, q = q, z
+			}
+			okPay = z.TokenStandard == types.ZnnTokenStandard && q.TokenStandard == types.QsrTokenStandard && z.ToAddress == e.owner && q.ToAddress == e.owner &&
+				z.Amount.Cmp(e.amount) == 0 && q.Amount.Cmp(e.qsr) == 0
+		}
+		if !okPay {
+			r.Fail("payout-wrong", "sentinel", "sentinel revoke: expected %v ZNN and %v QSR to %v, got %v", e.amount, e.qsr, e.owner, payStr(pays))
+		}
+		e.paid = true
+		r.Probe("payout-judged-sentinel")
+	case "pillar.DepositQsr", "sentinel.DepositQsr":
+		if send.TokenStandard != types.QsrTokenStandard {
+			return
+		}
+		if m.deposits[send.ToAddress] == nil {
+			m.deposits[send.ToAddress] = map[types.Address]*big.Int{}
+		}
+		d := m.deposits[send.ToAddress][send.Address]
+		if d == nil {
+			d = new(big.Int)
+			m.deposits[send.ToAddress][send.Address] = d
+		}
+		d.Add(d, send.Amount)
+		m.everDeposited[send.Address] = true
+	case "pillar.WithdrawQsr", "sentinel.WithdrawQsr":
+		for _, p := range pays {
+			if p.ToAddress != send.Address || p.TokenStandard != types.QsrTokenStandard {
+				r.Fail("released-to-wrong-party", "qsr-deposit", "%s by %v pays %v", key, send.Address, payStr(pays))
+			}
+			if !m.everDeposited[send.Address] {
+				r.Fail("payout-unexplained", "qsr-deposit", "%s by %v, who never deposited in this run, pays %v", key, send.Address, payStr(pays))
+			}
+			r.Probe("payout-judged-qsr-deposit")
+		}
+		delete(m.deposits[send.ToAddress], send.Address)
 	default:
-		// any other successful call to the three modelled contracts must not pay users
-		if (send.ToAddress == types.StakeContract || send.ToAddress == types.PlasmaContract || send.ToAddress == types.HtlcContract) && len(pays) > 0 {
-			r.Fail("payout-unexplained", nomsim.ContractByAddr(send.ToAddress).Name, "%s pays %v", key, payStr(pays))
+		// any other successful call to the modelled contracts must not pay users (reward collection
+		// mints through the token contract, which is not a payout of locked funds)
+		switch send.ToAddress {
+		case types.StakeContract, types.PlasmaContract, types.HtlcContract, types.PillarContract, types.SentinelContract:
+			if len(pays) > 0 {
+				r.Fail("payout-unexplained", nomsim.ContractByAddr(send.ToAddress).Name, "%s pays %v", key, payStr(pays))
+			}
 		}
 	}
 }
@@ -338,8 +443,12 @@ func runC10(r *simrt.Run) {
 		constants.StakeTimeMaxSec = constants.StakeTimeUnitSec * 12
 		constants.FuseExpiration = uint64(2 + t.Choose(20))
 		fuseExp = constants.FuseExpiration
+		o5, o6, o7, o8 := constants.PillarEpochLockTime, constants.PillarEpochRevokeTime, constants.SentinelLockTimeWindow, constants.SentinelRevokeTimeWindow
+		constants.PillarEpochLockTime, constants.PillarEpochRevokeTime = int64(60*(1+t.Choose(8))), int64(60*(1+t.Choose(4)))
+		constants.SentinelLockTimeWindow, constants.SentinelRevokeTimeWindow = int64(60*(1+t.Choose(8))), int64(60*(1+t.Choose(4)))
 		w.OnClose(func() {
 			constants.StakeTimeUnitSec, constants.StakeTimeMinSec, constants.StakeTimeMaxSec, constants.FuseExpiration = o1, o2, o3, o4
+			constants.PillarEpochLockTime, constants.PillarEpochRevokeTime, constants.SentinelLockTimeWindow, constants.SentinelRevokeTimeWindow = o5, o6, o7, o8
 		})
 	}
 	p := w.AddNode("P", nomsim.MockPillars(), false)
@@ -349,7 +458,27 @@ func runC10(r *simrt.Run) {
 	// bias the flows toward lock/unlock traffic
 	lockFlows := []string{"fuse", "cancel-fuse", "stake", "cancel-stake", "htlc-create", "htlc-unlock", "htlc-reclaim", "htlc-proxy", "deposit-qsr", "withdraw-qsr",
 		"register-sentinel", "revoke-sentinel", "register-pillar", "revoke-pillar", "liquidity-stake", "liquidity-cancel"}
-	model := &lockModel{entries: map[types.Hash]*lockEntry{}, proxy: map[types.Address]bool{}}
+	model := &lockModel{entries: map[types.Hash]*lockEntry{}, proxy: map[types.Address]bool{}, pillars: map[string]*lockEntry{}, sentinels: map[types.Address]*lockEntry{},
+		deposits: map[types.Address]map[types.Address]*big.Int{}, everDeposited: map[types.Address]bool{}}
+	// collateral that exists since genesis
+	gst := p.Chain.GetFrontierMomentumStore()
+	if ps, err := definition.GetPillarsList(gst.GetAccountStore(types.PillarContract).Storage(), true, definition.AnyPillarType); err == nil {
+		for _, pi := range ps {
+			model.pillars[pi.Name] = &lockEntry{kind: "pillar", owner: pi.StakeAddress, amount: new(big.Int).Set(pi.Amount), zts: types.ZnnTokenStandard, regTime: pi.RegistrationTime}
+		}
+	}
+	definition.IterateSentinelEntries(gst.GetAccountStore(types.SentinelContract).Storage(), func(si *definition.SentinelInfo) error {
+		model.sentinels[si.Owner] = &lockEntry{kind: "sentinel", owner: si.Owner, amount: new(big.Int).Set(si.ZnnAmount), qsr: new(big.Int).Set(si.QsrAmount), zts: types.ZnnTokenStandard, regTime: si.RegistrationTimestamp}
+		return nil
+	})
+	for _, a := range oracle.Accounts(p.Mgr.Frontier()) {
+		for _, c := range []types.Address{types.PillarContract, types.SentinelContract} {
+			a := a
+			if d, err := definition.GetQsrDeposit(gst.GetAccountStore(c).Storage(), &a); err == nil && d != nil && d.Qsr != nil && d.Qsr.Sign() > 0 {
+				model.everDeposited[a] = true
+			}
+		}
+	}
 	offset := oracle.GenesisFusionOffset(w.Gen.PlasmaConfig.Fusions)
 	slots := 20 + t.Choose(60)
 	longJumps, maxLong := 0, 2
